@@ -17,6 +17,7 @@ package main
 // random generator; literal spellings; plan and case dispatch.
 
 import (
+	"context"
 	"errors"
 	"fmt"
 	"math"
@@ -1758,6 +1759,13 @@ func c03LitMust(c *wk.Case, class, spelling string, want c03Want, ctx int) {
 	c.Events(1)
 	if ex.Panicked || ex.Err != nil || !c03Same(want, ex.Val) {
 		c.Violation("literal:exec:"+class, "literal evaluates to "+ank.Render(ex.Val)+" err="+ank.ErrText(ex.Err)+", written "+want.String(), input)
+		return
+	}
+	// the same through vm.ExecuteContext, the literal stored and read back
+	ex = ank.ExecCtx(context.Background(), ank.NewCoreEnv(), "x = "+spelling+"; x")
+	c.Events(1)
+	if ex.Panicked || ex.Err != nil || !c03Same(want, ex.Val) {
+		c.Violation("literal:exec-ctx:"+class, "`x = <literal>; x` through vm.ExecuteContext evaluates to "+ank.Render(ex.Val)+" err="+ank.ErrText(ex.Err)+", written "+want.String(), input)
 	}
 }
 
@@ -1790,6 +1798,7 @@ func c03LitNeg(c *wk.Case, class, spelling string, pos c03Want, sep string, mayR
 				c.Violation("literal:errtype:"+class, fmt.Sprintf("rejected with %T, not *parser.Error", err), input)
 			}
 			c.Tag("lit:" + class + ":rejected(allowed)")
+			c03ExecMustReject(c, class, src, input) // rejected by the parser: rejected by Execute too
 			return
 		}
 		c.Violation("literal:rejected:"+class, "representable negative literal rejected: "+err.Error(), input)
@@ -1844,6 +1853,11 @@ func c03LitReject(c *wk.Case, class, spelling string, ctx int) {
 	if !errors.As(err, &pe) {
 		c.Violation("literal:errtype:"+class, fmt.Sprintf("rejected with %T, not *parser.Error", err), input)
 	}
+	if root != nil {
+		c.Tag("lit:rejected-with-tree")
+	}
+	// the second observation point: vm.Execute / vm.ExecuteContext reject it too and run nothing (c03_r6.go)
+	c03ExecMustReject(c, class, src, input)
 }
 
 // ---- spellings ----
@@ -2100,9 +2114,25 @@ func c03LiteralCase(c *wk.Case, per int) {
 			c03LitReject(c, "out-of-range-negative", s, 0)
 			c03LitReject(c, "out-of-range-negative", s, i+1)
 		}
+		// every fixed rejected spelling in every script context, through ParseSrc, Execute and ExecuteContext (c03_r6.go)
+		rej := map[string][]string{"malformed": c03Malformed, "out-of-range": c03OutOfRange,
+			"out-of-range-lead0":    {"09223372036854775808", "018446744073709551616", "01e400"},
+			"out-of-range-negative": {"-9223372036854775809", "-0xFFFFFFFFFFFFFFFF", "-0b" + strings.Repeat("1", 64), "-1e400", "- 9223372036854775809", "-1.5e400"}}
+		for _, cl := range []string{"malformed", "out-of-range", "out-of-range-lead0", "out-of-range-negative"} {
+			for _, s := range rej[cl] {
+				for k := range c03RejCtx {
+					c03LitRejectExec(c, cl, s, k)
+				}
+			}
+		}
+		for _, s := range c03AgreeFixed {
+			c03ExecAgree(c, "fixed-error", s)
+		}
 		for _, s := range []string{"", "a", "\\", "\"", "'", "`", "\n", "a\nb", "\t\r\b\f", "\\n", "é日😀", "//x", "/*x*/", "#x", "a\\\"b", "''", "\"\"",
 			"\\é", "é\\", "\\\u0162\\\U0001F46E", "\u0122\u0127\u0160\u2028\u0085\u00a0", "\\\\\u016e"} {
 			c03Strings(c, r, s)
+			c03Unterminated(c, r, s)
+			c03InvalidUTF8(c, r, s)
 		}
 		return
 	}
@@ -2157,7 +2187,14 @@ func c03LiteralCase(c *wk.Case, per int) {
 				c03LitMust(c, cl, s, c03Want{kind: 'f', f: f}, ctx)
 			}
 		case x < 17: // strings
-			c03Strings(c, r, c03DrawString(r))
+			ds := c03DrawString(r)
+			c03Strings(c, r, ds)
+			if r.Intn(4) == 0 {
+				c03Unterminated(c, r, ds)
+			}
+			if r.Intn(4) == 0 {
+				c03InvalidUTF8(c, r, ds)
+			}
 		case x < 19: // out of range
 			var s, cl string
 			if r.Intn(2) == 0 {
@@ -2188,8 +2225,14 @@ func c03LiteralCase(c *wk.Case, per int) {
 				}
 			}
 			c03LitReject(c, cl, s, ctx)
+			c03LitRejectExec(c, cl, s, r.Intn(len(c03RejCtx)))
 		default:
-			c03LitReject(c, "malformed", c03Malformed[r.Intn(len(c03Malformed))], ctx)
+			ms := c03Malformed[r.Intn(len(c03Malformed))]
+			if r.Intn(2) == 0 {
+				ms = c03DrawMalformed(r)
+			}
+			c03LitReject(c, "malformed", ms, ctx)
+			c03LitRejectExec(c, "malformed", ms, r.Intn(len(c03RejCtx)))
 		}
 	}
 }
@@ -2275,6 +2318,7 @@ func c03EscOne(c *wk.Case, x rune, qi, ci int, doExec bool) (cls string, ok bool
 			c.Violation("literal:errtype:undef-escape", fmt.Sprintf("rejected with %T, not *parser.Error", err), input)
 			return "", false
 		}
+		c03ExecMustReject(c, "undef-escape", spelling, input) // rejected by the parser: rejected by Execute too
 		return "rejected", true
 	}
 	lits := c03LitNodes(root)
@@ -2392,6 +2436,8 @@ func init() {
 					"bare and embedded in a rotating statement position; each spelling must parse to the tree itself (AST converted back, ParenExpr/positions ignored, -5 ~ literal -5), dump identically, and minimal/full must evaluate alike. " +
 					"phase trees: PRNG-drawn typed trees (depth<=6 quick, <=8 thorough) over all operators, postfix forms, literals (integers also as 0x/0b and behind leading zeros), names, calls, array/map/func literals, embedded in all " + strconv.Itoa(len(c03Positions)) + " statement positions (incl. the right-hand side of a two-target assignment `r, v = e`; the fully parenthesised spelling wraps the complete expression, a root that is no operator is wrapped in an extra spelling where the case is executed): same program tree and value. " +
 					"phase literals: Go values spelled as decimal/0x/0X/0b/0B integers, decimal integers and floats behind 1..3 (one draw in eight 20..29) leading zeros (they denote the decimal number written: 010 is ten, 08 eight, 09223372036854775807 MaxInt64; fixed list of values with only digits below 8, with the digits 8 and 9 and at the int64 boundaries, each also negated; unrepresentable decimals stay rejected behind zeros), floats (., e, E, signed exponents), \"..\"/'..' strings with escapes, raw strings; negative forms; out-of-range and malformed spellings must give *parser.Error; " +
+					"every rejected spelling (also the malformed shapes with drawn digits: several dots, two exponents, empty exponent, bare 0x/0b, binary digit above 1) is also handed to vm.Execute and vm.ExecuteContext, in its parse context and embedded in one of " + strconv.Itoa(len(c03RejCtx)) + " scripts (function body never called, dead branch, later statement, list/map item, call argument, case label: the fixed spellings in all of them): both must answer with a *parser.Error and a statement put in front of the script must not have taken effect; every accepted literal is also read back from `x = <literal>; x` through vm.ExecuteContext; " +
+					"sources the statement does not require to be rejected (unterminated strings, fixed and drawn; doubled else/default; plain syntax errors): only the agreement is judged - what ParseSrc rejects, Execute and ExecuteContext reject; " +
 					"string values also draw non-ASCII code points from the whole range (half of them with the low byte of a lexically meaningful ASCII character), written as themselves and after an escaped backslash; " +
 					"undefined escapes (complete every run, one 256-code-point block per case from case 1): a backslash before every code point of U+0080..U+307F and of " + strconv.Itoa(len(c03EscBlocks)-0x30) + " further BMP/astral blocks, plus 32 drawn code points per case, in both quote styles with rotating defined surroundings: the literal must denote only characters that were written (X kept, backslash and X kept, both dropped, or *parser.Error) and the choice must be the same for every X (compared with U+00E9, U+65E5, U+1F600). " +
 					"bare position also: the same source through a parser.Scanner re-initialised with Init must give ParseSrc's tree. " +
@@ -2402,6 +2448,8 @@ func init() {
 					"a backslash before a non-ASCII character has no defined value (Go rejects it): only 'made of the written characters' and 'the same rule for every such character' are judged",
 					"chained `in` (`a in xs in ys`) is generated bare: it parses right-associatively although the statement says left; reported every run as a known finding (the baseline suite pins the right-associative reading in TestItemInList). The earlier constants are false, their workload is on: numeric literal as the bare base of call/index/slice (`-5[0]` parses to (-5)[0]: reported every run as a known finding), `r, v = (m[k])` and the re-initialised Scanner (both repaired in /repo)",
 					"run-time errors of type-wild trees are not judged, only that both spellings agree",
+					"a parse error is found before the run starts: a script the parser rejects has no tree, so vm.Execute/vm.ExecuteContext run no part of it; the value they hand back next to the error is not judged, nor is the wording or position of the error",
+					"PENDING (c03PendingFix_InvalidUTF8 = true, class not generated): a string literal holding bytes that are no UTF-8 encoding must denote exactly those bytes or be rejected with a *parser.Error; today []rune(src) turns each such byte into U+FFFD (C03-r6-genuine.md #1)",
 					"the statement names decimal, hexadecimal and binary integers and no octal form: a literal of decimal digits only is read as decimal whatever its first digit (leading zeros carry no meaning, as in Go's 010.5 and strconv base 10)",
 				},
 				Phases: []fw.Phase{
